@@ -465,6 +465,12 @@ public:
       callback_keys.clear();
       sandbox_incarnation++;
     }
+    // ... and the symbol addresses that were looked up in the library of this
+    // incarnation
+    {
+      RLBOX_ACQUIRE_UNIQUE_GUARD(lock, func_ptr_cache_lock);
+      func_ptr_map.clear();
+    }
 
     sandbox_created.store(Sandbox_Status::NOT_CREATED);
     return this->impl_destroy_sandbox();
